@@ -559,6 +559,10 @@ def r5_quantities(ctx):
 
 
 def run(ctx):
+    from .shared import leftover_from_finished_loop
+
+    _ls = [ctx.corpus.func('repository', 'Repository.list_files'), ctx.corpus.func('repository', 'Repository.list_snapshots'), ctx.corpus.func('repository', 'Repository._load_snapshots')]
+    leftover_from_finished_loop(ctx, 'C15.R1', _ls + [n for g in _ls for n in g.all_nested()], 'listing rows')
     r1_one_name(ctx)
     r1b_header_follows_columns(ctx)
     r2_order(ctx)
